@@ -22,6 +22,13 @@ SEED = {"python": ("py", C15.PY), "typescript": ("ts", C15.TS), "javascript": ("
                                                                                  .replace(": number", "").replace(": string[]", "").replace(": string", "")),
         "rust": ("rs", C15.RS), "script": ("", "#!/usr/bin/env python3\n" + C15.PY)}
 CMDS = sorted(kit.COMMANDS)
+# multi-line import / export headers: constructs whose handling spans several lines (tokenizer state)
+HEAD = {"py": "from typing import (\n    Any,\n    Dict,\n)\nfrom os import (\n    path,\n    sep,\n)\n\n",
+        "": "",
+        "ts": 'import {\n  join,\n  resolve,\n} from "path";\nexport function scaleBy(\n  factor: number,\n  value: number,\n): number {\n  return factor * value;\n}\n\n',
+        "js": 'import {\n  join,\n  resolve,\n} from "path";\nexport function scaleBy(\n  factor,\n  value,\n) {\n  return factor * value;\n}\n\n',
+        "rs": "use std::{\n    fs,\n    io,\n};\n\n"}
+SEED = {k: (e, t.replace("\n", "\n" + HEAD["py"], 1) if e == "" else HEAD[e] + t) for k, (e, t) in SEED.items()}
 
 
 def mutate(text: str, ext: str, faults: list[str], rng: random.Random, big: int) -> tuple[bytes, str]:
@@ -34,6 +41,10 @@ def mutate(text: str, ext: str, faults: list[str], rng: random.Random, big: int)
         elif op == "quoteFlood":
             i = rng.choice(toks)[0] if toks else 0
             text = text[:i] + '"' * (big * 10) + text[i:]
+        elif op == "truncInParen":
+            # cut inside a construct that is open across lines: right after a line following an unclosed ( or {
+            opens = [m.end() for m in re.finditer(r"[({]\n[^\n]*\n", text)]
+            text = text[:rng.choice(opens)] if opens else text[:max(1, len(text) // 3)]
         elif op.startswith("trunc"):
             frac = {"truncQuarter": 0.25, "truncHalf": 0.5, "truncMost": 0.9}[op]
             text = text[:max(1, int(len(text) * frac) + rng.randint(-3, 3))]
@@ -109,6 +120,18 @@ def mutate(text: str, ext: str, faults: list[str], rng: random.Random, big: int)
     return data, name
 
 
+# healthy siblings made of module-level statements without any bracket: whatever state a damaged file leaves behind
+# in a line-oriented scanner ("inside a parenthesised import", "inside a string") is not reset by their first lines
+PLAIN_PY = "threshold@ = 10\ntotal = 0\ncount = 0\nfor value in VALUES:\n    if value > threshold@:\n        total += value\n" \
+           "        count += 1\n    else:\n        total -= 1\nmean = total / count\nspread = mean * 2 + 41\n"
+PLAIN_TS = "let total = 0;\nlet count = 0;\nfor (const value of VALUES) {\n  if (value > THRESHOLD) {\n    total += value;\n" \
+           "    count += 1;\n  } else {\n    total -= 1;\n  }\n}\nconst mean = total / count;\nconst spread = mean * 2 + 41;\n"
+PLAIN = {"g07_plain.py": "VALUES = [1, 2, 3]\n" + PLAIN_PY.replace("@", ""),
+         "g08_plain.py": "VALUES = [4, 5, 6, 7]\nEXTRA = 1\n" + PLAIN_PY.replace("@", ""),
+         "g09_plain.ts": "const VALUES = [1, 2, 3];\nconst THRESHOLD = 10;\n" + PLAIN_TS,
+         "g10_plain.ts": "const VALUES = [4, 5, 6, 7];\nconst THRESHOLD = 20;\nconst EXTRA = 1;\n" + PLAIN_TS}
+
+
 def _bag(vs, root, skip):
     out = []
     for v in vs:
@@ -128,6 +151,7 @@ def job(j: dict) -> dict:
     base_root = Path(j["root"]) / "base"
     root = Path(j["root"]) / "proj"
     sib = dict(projects.build(6, [[1, 2]], "flat", offset=j["offset"]))
+    sib.update(PLAIN)
     for r in (base_root, root):
         r.mkdir(parents=True)
         drive.write_tree(r, sib)
@@ -146,6 +170,28 @@ def job(j: dict) -> dict:
     except BaseException as e:  # noqa: BLE001
         api_exc = f"{type(e).__name__}: {e}"[:300]
         got = None
+    # the same files as an explicit list, the damaged file first / in the middle: the healthy files processed AFTER
+    # it in the same process must not be affected either (nothing carried over from the damaged file)
+    listed_same, listed_order = True, ""
+    if got is not None:
+        sibs = sorted(sib)
+        rng.shuffle(sibs)
+        # a bracket-free sibling of the damaged file's language comes right after it
+        same = [x for x in sibs if "_plain" in x and x.endswith({"": ".py", "js": ".ts"}.get(ext, "." + ext))]
+        sibs = [x for x in sibs if x not in same[:1]]
+        k = 0 if rng.random() < 0.6 else rng.randrange(1, len(sibs))
+        listed_order = "first" if k == 0 else "middle"
+        sibs = sibs[:k] + same[:1] + sibs[k:]
+        os.chdir(base_root)
+        ref = _bag(Linter(project_root=str(base_root)).orchestrator.lint_files([base_root / x for x in sibs]), base_root, None)
+        os.chdir(root)
+        order = sibs[:k] + [name] + sibs[k:]
+        ig._CACHED_PARSER = None
+        try:
+            lst = _bag(Linter(project_root=str(root)).orchestrator.lint_files([root / x for x in order]), root, name)
+            listed_same = lst == ref
+        except BaseException as e:  # noqa: BLE001
+            api_exc = f"{type(e).__name__}: {e}"[:300]
     exits = []
     details = []
     for cmd in j["cmds"]:
@@ -166,7 +212,8 @@ def job(j: dict) -> dict:
                 seen.add(k)
                 fails.append(f)
     return {"exits": exits + ([2] if api_exc else []), "fails": fails, "api_exc": api_exc, "details": details,
-            "siblings_same": got == baseline if got is not None else True, "name": name, "size": len(data)}
+            "siblings_same": got == baseline if got is not None else True, "listed_same": listed_same,
+            "listed_order": listed_order, "name": name, "size": len(data)}
 
 
 def job_slow(j: dict) -> dict:
@@ -226,10 +273,10 @@ def run(chk) -> None:
     quick = chk.tier == "quick"
     chk.level = "fault_enumeration"
     drive.preload()
-    chk.rule = ("fault sequences (32 operations: truncation, token deletion/duplication, bracket/quote imbalance, "
+    chk.rule = ("fault sequences (33 operations: truncation, token deletion/duplication, bracket/quote imbalance, "
                 "encoding damage, nesting/length blow-up, empty/binary/unknown type) of length <= MaxFaults over "
                 "seed files of 4 languages plus an extensionless shebang script, enumerated by TLC from Robust.tla; concrete positions/bytes drawn from "
-                "VERIF_SEED; each damaged file linted among 6 healthy siblings through Linter.lint (all rules, H1 "
+                "VERIF_SEED; each damaged file linted among 10 healthy siblings through Linter.lint (all rules, H1 "
                 "tap) and 3 rotating CLI commands; non-trivial = every case (each damages a valid file); distinct "
                 "by (seed, fault sequence)")
     chk.assumptions = ["fault enumeration: TLC enumerates fault sequences, the byte-level instantiation is "
@@ -299,7 +346,7 @@ def run(chk) -> None:
             raise MachineryError(f"C11 job failed: {r_.error}")
         v = r_.value
         records.append({"hang": False, "exits": v["exits"], "failed": len(v["fails"]),
-                        "siblings_same": v["siblings_same"]})
+                        "siblings_same": v["siblings_same"] and v["listed_same"]})
         meta.append((case, v))
     verdicts = trace.validate(chk, "RobustTrace", "mc/RobustTrace.cfg", records)
     for (case, v), (la, lb, at) in zip(meta, verdicts):
@@ -321,5 +368,8 @@ def run(chk) -> None:
                        dict(case, details=v["details"], api_exc=v["api_exc"]),
                        f"run aborted on {lang} after {case['faults']}: {v['api_exc'] or d}")
         else:
-            chk.reject({"clause": la, "lang": lang, "faults": "30000-quote flood" if flood else case["faults"]}, case,
-                       f"{la} on {lang} after {case['faults']} (big={case['big']})")
+            key = {"clause": la, "lang": lang, "faults": "30000-quote flood" if flood else case["faults"]}
+            if la == "SiblingsChanged" and v.get("siblings_same") and not v.get("listed_same", True):
+                key["order"] = v["listed_order"]      # only the explicit-list run with the damaged file early shows it
+            chk.reject(key, case, f"{la} on {lang} after {case['faults']} (big={case['big']}"
+                       + (f", damaged file {v.get('listed_order')} in an explicit list" if "order" in key else "") + ")")
